@@ -89,8 +89,10 @@ PlanOK(c, o) ==
   ELSE IF \E p \in Needed(c) : ~InRoi(rd, p[1], p[2]) THEN "needed_destination_pixel_outside_destination_region"
   ELSE IF \E p \in Needed(c) : ~InRoi(rs, SrcPix(c, p)[1], SrcPix(c, p)[2]) THEN "source_location_of_needed_pixel_outside_source_region"
   ELSE IF Separated(c) /\ (Area(rs) # 0 \/ Area(rd) # 0) THEN "separated_rasters_give_non_empty_regions"
-  ELSE IF k > 1 /\ (k * D - 15) * (k * D - 15) > ScaleSq(c.A) THEN "read_shrink_exceeds_scale_by_more_than_the_tolerance"
-  ELSE IF o.scale * o.scale # ScaleSq(c.A) THEN "scale_is_not_the_smaller_pixel_size_ratio"
+  ELSE IF k > 1 /\ (k * D - 15) * (k * D - 15) > Max2(ScaleSq(c.A), o.scale) THEN "read_shrink_exceeds_scale_by_more_than_the_tolerance"
+  \* o.scale is logged squared (times D * D).  For a sheared map (columns not orthogonal) "pixel size along an axis" has more than one
+  \* reading (the code takes the rotation-shear-scale decomposition); the statement quantifies over scales, mirrors and rotations only
+  ELSE IF c.A[1] * c.A[2] + c.A[4] * c.A[5] = 0 /\ o.scale # ScaleSq(c.A) THEN "scale_is_not_the_smaller_pixel_size_ratio"
   ELSE "ok"
 
 \* direct use of the per-axis arithmetic (box_overlap / compute_axis_overlap) with ANY scale and translation (no snapping):
@@ -109,7 +111,11 @@ PasteSoundOK(c, o) ==
   ELSE IF ~IsST(c.A) THEN "paste_reported_for_rotation_or_shear"
   ELSE IF ~(c.align = <<>> \/ c.align = <<0>>) \/ ~(c.pad = <<>> \/ c.pad = <<0>>) THEN "paste_reported_with_padding_or_alignment"
   ELSE IF ~NearInt(Abs(c.A[1]), D, c.stol[1], c.stol[2]) \/ Abs(c.A[1]) # Abs(c.A[5]) \/ Abs(c.A[1]) < D THEN "paste_reported_for_fractional_or_unequal_scale"
-  ELSE IF ~(NearInt(c.A[3], Abs(c.A[1]), c.ttol[1], c.ttol[2]) /\ NearInt(c.A[6], Abs(c.A[1]), c.ttol[1], c.ttol[2])) THEN "paste_reported_for_sub_pixel_shift_beyond_tolerance"
+  \* "whole-pixel shift": in destination pixels, or in read-shrink x source pixels (the code's measure) - with a scale that is an integer only
+  \* up to stol the two differ by up to stol per pixel of shift, and the statement does not say which is meant: either is accepted
+  ELSE IF ~(\/ (NearInt(c.A[3], Abs(c.A[1]), c.ttol[1], c.ttol[2]) /\ NearInt(c.A[6], Abs(c.A[1]), c.ttol[1], c.ttol[2]))
+            \/ (o.shrink >= 1 /\ NearInt(c.A[3], o.shrink * D, c.ttol[1], c.ttol[2]) /\ NearInt(c.A[6], o.shrink * D, c.ttol[1], c.ttol[2])))
+       THEN "paste_reported_for_sub_pixel_shift_beyond_tolerance"
   ELSE IF o.shrink > 1 /\ ~(o.roi_src[2] - o.roi_src[1] = o.shrink * (o.roi_dst[2] - o.roi_dst[1]) /\ o.roi_src[4] - o.roi_src[3] = o.shrink * (o.roi_dst[4] - o.roi_dst[3])) THEN "source_region_is_not_destination_region_times_shrink"
   ELSE "ok"
 \* the planned regions of a paste: inside their images (the source region up to the next multiple of the shrink factor), the source
